@@ -62,18 +62,20 @@ theorem ILTI.tail {s s' : Sys} (h : ILTI s) (hs : SInv s) (hil : ILInv s) (hok :
       (∃ i, t = .ingest o i) ∧ ∃ r ∈ s'.procs, r.pid = ret ∧ q.wake ≤ r.wake + 1 ∧
         ∃ ph tot, r.k = .doWork t m [] ph tot ∧ (r.alive = true → ph = 0 ∨ 2 ≤ ph) ∧
           ∃ ob a b, s'.obs? o = some ob ∧ ob.ast = some a ∧ r.wake = ((b : Nat) : Time) ∧
-            (r.alive = true → ph = 0 → b = a) ∧ b + 1 ≤ a + ob.duration) ∧
+            (r.alive = true → ph = 0 → b = a) ∧ b + 1 ≤ a + ob.duration ∧ ∃ c : Nat, q.wake = (c : Time)) ∧
     (∀ e ∈ s'.cl.pending, ∃ o, e.obs = some o ∧ ∃ q ∈ s'.procs, q.alive = true ∧ q.pc = 0 ∧
       ∃ preds ret, q.k = .allocTask e.task e.mach preds (some o) true ret) ∧
     (∀ e ∈ s'.cl.runOn, e.ing = true → ∃ o, e.obs = some o ∧ ∃ q ∈ s'.procs, q.alive = true ∧
-      1 ≤ q.pc ∧ ∃ preds ret, q.k = .allocTask e.task e.mach preds (some o) true ret) := by
+      1 ≤ q.pc ∧ ∃ preds ret, q.k = .allocTask e.task e.mach preds (some o) true ret) ∧
+    (∀ rec ∈ s'.tasks, rec.id.isIngest = true → ∀ f, rec.aft = some f →
+      ∃ d ∈ s'.procs, d.alive = false ∧ f = d.wake + 1 ∧ ∃ m preds ph tot, d.k = .doWork rec.id m preds ph tot) := by
   obtain ⟨hk1, hk2⟩ := hok
-  refine ⟨?_, ?_, ?_, ?_, ?_, ?_⟩
+  refine ⟨?_, ?_, ?_, ?_, ?_, ?_, ?_⟩
   · intro ob' hob'
     obtain ⟨ob, hob, e⟩ := hk1 ob' hob'
     rw [e]; exact h.durPos ob hob
   · intro r' hr' o i hid
-    obtain ⟨r, hr, e1, e2, e3, e4⟩ := htasks r' hr' (by rw [hid]; rfl)
+    obtain ⟨r, hr, e1, e2, e3, e4, _⟩ := htasks r' hr' (by rw [hid]; rfl)
     obtain ⟨k1, k2, ob, hob, k3⟩ := h.taskR r hr o i (e1 ▸ hid)
     obtain ⟨ob', hob', _, hd⟩ := hk2 o ob hob
     exact ⟨e2.trans k1, e3.trans k2, ob', hob', by rw [hd, e4 k1 k2, k3]⟩
@@ -84,11 +86,11 @@ theorem ILTI.tail {s s' : Sys} (h : ILTI s) (hs : SInv s) (hil : ILInv s) (hok :
     exact ⟨h1, h2, ob', a, hob', by rw [ha' (il_at_admitted hs hil hqo hqa hqk)]; exact h4, h5⟩
   · intro q hq hqa hqc t m preds o ret hqk
     have hqo := hnewAT q hq _ _ _ _ _ hqk
-    obtain ⟨h1, r, hr, hrp, hw, ph, tot, hrk, hph, ob, a, b, hob, hast, rest1, rest2, rest3⟩ :=
+    obtain ⟨h1, r, hr, hrp, hw, ph, tot, hrk, hph, ob, a, b, hob, hast, rest1, rest2, rest3, rest4⟩ :=
       h.atRun q hqo hqa hqc t m preds o ret hqk
     obtain ⟨ob', hob', ha', hd'⟩ := hk2 o ob hob
     exact ⟨h1, r, hold r hr (Or.inr (by rw [hrk]; rfl)), hrp, hw, ph, tot, hrk, hph, ob', a, b, hob',
-      by rw [ha' (il_at_admitted hs hil hqo hqa hqk)]; exact hast, rest1, rest2, by rw [hd']; exact rest3⟩
+      by rw [ha' (il_at_admitted hs hil hqo hqa hqk)]; exact hast, rest1, rest2, by rw [hd']; exact rest3, rest4⟩
   · intro e he
     rw [hpend] at he
     obtain ⟨o, h1, q, hq, h2, h3, preds, ret, hqk⟩ := h.entPend e he
@@ -97,6 +99,10 @@ theorem ILTI.tail {s s' : Sys} (h : ILTI s) (hs : SInv s) (hil : ILInv s) (hok :
     rw [hrunOn] at he
     obtain ⟨o, h1, q, hq, h2, h3, preds, ret, hqk⟩ := h.entRun e he hi
     exact ⟨o, h1, q, hold q hq (Or.inl (by rw [hqk]; rfl)), h2, h3, preds, ret, hqk⟩
+  · intro r' hr' hi f hf
+    obtain ⟨r, hr, e1, _, _, _, e5⟩ := htasks r' hr' hi
+    obtain ⟨d, hd, hda, hfd, m, preds, ph, tot, hdk⟩ := h.aftI r hr (e1 ▸ hi) f (e5 ▸ hf)
+    exact ⟨d, hold d hd (Or.inr (by rw [hdk]; rfl)), hda, hfd, m, preds, ph, tot, by rw [e1]; exact hdk⟩
 
 /-- the clause about stale allocation processes, for the entries whose supervisor was dead
 before: the witnesses are still there, their task bodies still dead, the telescope not earlier -/
@@ -108,7 +114,7 @@ theorem ILTI.staleKeep {s s' : Sys} (h : ILTI s) (_hpw : PW s) {e : RunEntry} (h
       ∃ t ∈ s.procs, t.k = .telescope ∧ t.alive = true ∧ t.wake ≤ t'.wake) :
     ∃ q ∈ s'.procs, q.alive = true ∧ 1 ≤ q.pc ∧
       (∃ preds ret, q.k = .allocTask e.task e.mach preds (some o) true ret ∧
-        ∀ r ∈ s'.procs, r.pid = ret → r.alive = false) ∧
+        ∀ r ∈ s'.procs, r.pid = ret → r.alive = false ∧ r.wake + 1 ≤ q.wake) ∧
       ∀ t ∈ s'.procs, t.k = .telescope → t.alive = true → q.wake < t.wake := by
   obtain ⟨q, hq, hqa, hqc, ⟨preds, ret, hqk, hdead⟩, hlt⟩ := h.stale e he o heo hno
   refine ⟨q, hold q hq (Or.inl (by rw [hqk]; rfl)), hqa, hqc, ⟨preds, ret, hqk, ?_⟩, ?_⟩
@@ -283,7 +289,7 @@ theorem ilti_step_provIngest {s : Sys} (hs : SInv s) (h : ILTI s) (hil : ILInv s
         have : q0 = p := hpw.eq_of_pid hq0 hpm (e.trans hpid.symm)
         rw [if_pos e, this]
       · left; rw [if_neg e]; exact hq0
-    obtain ⟨t1, t2, t3, t4, t5, t6⟩ := h.tail hs hil (IlObsKeep.of_eq hobs) (by rw [f2, hcl]) (by rw [f2, hcl])
+    obtain ⟨t1, t2, t3, t4, t5, t6, t7⟩ := h.tail hs hil (IlObsKeep.of_eq hobs) (by rw [f2, hcl]) (by rw [f2, hcl])
       (by rw [f3, htk]; exact IlTaskK.refl _) hold
       (by
         intro q' hq' t m preds obs ret hqk
@@ -292,7 +298,7 @@ theorem ilti_step_provIngest {s : Sys} (hs : SInv s) (h : ILTI s) (hil : ILInv s
         · rw [hh, hp'k] at hqk; exact absurd hqk (by simp))
     obtain ⟨b1, b2, b3, b4, b4', b5⟩ := h.base hobs (by rw [f3, htk]; exact IlTaskK.refl _)
       (fun q' hq' o' tl hqk _ => hAI q' hq' o' tl hqk) (fun q' hq' _ o' tl hqk => hAI q' hq' o' tl hqk) hPI0
-    refine ⟨t1, t2, b3, b4, b4', b5, t3, t4, t5, t6, ?_⟩
+    refine ⟨t1, t2, b3, b4, b4', b5, t3, t4, t7, t5, t6, ?_⟩
     intro e he o' heo hno
     have he' : e ∈ s.cl.ilEntries := by rw [f2, hcl] at he; exact he
     exact h.staleKeep hpw he' heo (fun hin => hno (hlive o' hin)) hold hdwpid htel
@@ -383,7 +389,7 @@ theorem ilti_step_provIngest {s : Sys} (hs : SInv s) (h : ILTI s) (hil : ILInv s
         (s.cl.provisionIngest d o).2.2.map (fun x => (⟨x.2, x.1, some o, true⟩ : RunEntry)) := by
       rw [f2, hcl]; exact g1
     have hrunOn' : (s.resume pid orc).1.cl.runOn = s.cl.runOn := by rw [f2, hcl]; exact g2
-    refine ⟨by rw [hobs]; exact h.durPos, ?_, ?_, ?_, ?_, ?_, ?_, ?_, ?_, ?_, ?_⟩
+    refine ⟨by rw [hobs]; exact h.durPos, ?_, ?_, ?_, ?_, ?_, ?_, ?_, ?_, ?_, ?_, ?_⟩
     · -- task records: the new ones carry no work and are planned for the duration
       intro r' hr' o' i' hid
       rw [f3, htk] at hr'
@@ -428,6 +434,14 @@ theorem ilti_step_provIngest {s : Sys} (hs : SInv s) (h : ILTI s) (hil : ILInv s
         exact ⟨h1, r, hold r hr (Or.inr (by rw [hrk]; rfl)), hrp, hw, ph, tot, hrk, hph, ob', a', b,
           by rw [ho]; exact hob', rest⟩
       · omega
+    · -- F13: recorded finishes: the new records carry none
+      intro r' hr' hi f hf
+      rw [f3, htk] at hr'
+      rcases List.mem_append.mp hr' with hh | hh
+      · obtain ⟨d', hd', hda, hfd, m', preds', ph', tot', hdk⟩ := h.aftI r' hh hi f hf
+        exact ⟨d', hold d' hd' (Or.inr (by rw [hdk]; rfl)), hda, hfd, m', preds', ph', tot', hdk⟩
+      · obtain ⟨x, _, rfl⟩ := List.mem_map.mp hh
+        simp at hf
     · -- the ghost list of processes before their first block
       intro e he
       rw [hpend'] at he
